@@ -460,6 +460,132 @@ theorem multi_statement_text (c : Cfg) (text : String) (parsed : List Node) (ren
     simp [this]
   simp [this]
 
+/-! #### splitting a text into statements -/
+
+/-- scanning `s` from mode `m` without any token ending the statement; `none` if one does -/
+def scanRun : Mode → List Tok → Option Mode
+  | m, [] => some m
+  | m, t :: rest => if (splitStep m t).2 then none else scanRun (splitStep m t).1 rest
+
+/-- a statement as far as splitting is concerned: not empty, no token in it ends a statement, and
+after it a semicolon would (it does not stop inside a trigger body) -/
+def ClosedStmt (s : List Tok) : Prop :=
+  s ≠ [] ∧ ∃ m, scanRun .atStart s = some m ∧ (splitStep m .semi).2 = true
+
+def joinStmts : List (List Tok) → List Tok
+  | [] => []
+  | [s] => s
+  | s :: rest => s ++ [.semi] ++ joinStmts rest
+
+theorem splitAux_run (m m' : Mode) (cur s rest : List Tok) (h : scanRun m s = some m') :
+    splitAux m cur (s ++ rest) = splitAux m' (cur ++ s) rest := by
+  induction s generalizing m cur with
+  | nil => simp [scanRun] at h; subst h; simp
+  | cons t s ih =>
+    simp only [scanRun] at h
+    split at h
+    · cases h
+    · rename_i hne
+      simp only [List.cons_append, splitAux, hne, Bool.false_eq_true, if_false]
+      rw [ih _ _ h]
+      simp
+
+theorem splitStep_semi_mode (m : Mode) (h : (splitStep m .semi).2 = true) : (splitStep m .semi).1 = .atStart := by
+  cases m <;> simp_all [splitStep]
+
+/-- Splitting is the inverse of joining: a list of statements joined with semicolons is split into
+exactly those statements - whatever they contain, trigger bodies with their own semicolons included. -/
+theorem split_join (ss : List (List Tok)) (h : ∀ s ∈ ss, ClosedStmt s) :
+    splitToks (joinStmts ss) = ss := by
+  unfold splitToks
+  induction ss with
+  | nil => simp [joinStmts, splitAux, emit]
+  | cons s rest ih =>
+    obtain ⟨hne, m, hrun, hsemi⟩ := h s (by simp)
+    cases rest with
+    | nil =>
+      have := splitAux_run .atStart m [] s [] hrun
+      simp only [List.append_nil, List.nil_append] at this
+      simp only [joinStmts, this, splitAux, emit]
+      cases s with
+      | nil => exact absurd rfl hne
+      | cons a b => simp
+    | cons s2 rest2 =>
+      have hj : joinStmts (s :: s2 :: rest2) = s ++ (Tok.semi :: joinStmts (s2 :: rest2)) := by
+        simp [joinStmts]
+      rw [hj, splitAux_run .atStart m [] s _ hrun]
+      simp only [List.nil_append, splitAux, hsemi, if_true, splitStep_semi_mode m hsemi]
+      rw [ih (fun x hx => h x (by simp [hx]))]
+      cases s with
+      | nil => exact absurd rfl hne
+      | cons a b => simp [emit]
+
+/-- in particular a statement is never split by itself -/
+theorem closed_statement_not_split (s : List Tok) (h : ClosedStmt s) : splitToks s = [s] := by
+  have := split_join [s] (by simpa using h)
+  simpa [joinStmts] using this
+
+theorem scanRun_body (d : Nat) (body : List Tok) (hb : ∀ t ∈ body, t ≠ .case_ ∧ t ≠ .end_) :
+    scanRun (.triggerBody d) body = some (.triggerBody d) := by
+  induction body with
+  | nil => rfl
+  | cons t body ih =>
+    have ht := hb t (by simp)
+    have : splitStep (.triggerBody d) t = (.triggerBody d, false) := by
+      cases t <;> simp_all [splitStep]
+    simp only [scanRun, this, Bool.false_eq_true, if_false]
+    exact ih (fun x hx => hb x (by simp [hx]))
+
+theorem scanRun_head (head : List Tok) (hh : ∀ t ∈ head, t = .other) :
+    scanRun .triggerHead head = some .triggerHead := by
+  induction head with
+  | nil => rfl
+  | cons t head ih =>
+    have := hh t (by simp)
+    subst this
+    simp only [scanRun, splitStep, Bool.false_eq_true, if_false]
+    exact ih (fun x hx => hh x (by simp [hx]))
+
+theorem scanRun_append (m m' : Mode) (a b : List Tok) (h : scanRun m a = some m') :
+    scanRun m (a ++ b) = scanRun m' b := by
+  induction a generalizing m with
+  | nil => simp [scanRun] at h; subst h; rfl
+  | cons t a ih =>
+    simp only [scanRun] at h
+    split at h
+    · cases h
+    · rename_i hne
+      simp only [List.cons_append, scanRun, hne, Bool.false_eq_true, if_false]
+      exact ih _ h
+
+/-- The body of a CREATE TRIGGER statement is not split: `CREATE [TEMP] TRIGGER head BEGIN body END`
+with ANY body free of CASE/END tokens - any number of semicolons, BEGIN, CREATE, TRIGGER tokens in
+it - is one closed statement. (Bodies with nested CASE … END: see the example.) -/
+theorem trigger_body_not_split (tmp : Bool) (head body : List Tok) (hh : ∀ t ∈ head, t = .other)
+    (hb : ∀ t ∈ body, t ≠ .case_ ∧ t ≠ .end_) :
+    let stmt := [Tok.create] ++ (if tmp then [Tok.temp] else []) ++ [Tok.trigger] ++ head ++ [Tok.begin_] ++ body ++ [Tok.end_]
+    ClosedStmt stmt ∧ splitToks stmt = [stmt] := by
+  intro stmt
+  have hc : ClosedStmt stmt := by
+    refine ⟨by cases tmp <;> simp [stmt], .ordinary, ?_, rfl⟩
+    have h1 : scanRun .atStart ([Tok.create] ++ (if tmp then [Tok.temp] else []) ++ [Tok.trigger]) = some .triggerHead := by
+      cases tmp <;> rfl
+    simp only [stmt, List.append_assoc]
+    rw [← List.append_assoc [Tok.create], ← List.append_assoc ([Tok.create] ++ _),
+      scanRun_append _ _ _ _ h1, scanRun_append _ _ _ _ (scanRun_head head hh)]
+    simp only [List.cons_append, List.nil_append, scanRun, splitStep, Bool.false_eq_true, if_false]
+    rw [scanRun_append _ _ _ _ (scanRun_body 1 body hb)]
+    simp [scanRun, splitStep]
+  exact ⟨hc, closed_statement_not_split stmt hc⟩
+
+/-- a trigger whose body holds semicolons and a nested CASE … END, between two other statements -/
+example :
+    let trg := [Tok.create, .trigger, .other, .begin_, .other, .case_, .other, .end_, .semi, .other, .semi, .end_]
+    splitToks ([Tok.other, .other] ++ [.semi] ++ trg ++ [.semi, .semi] ++ [.other]) = [[.other, .other], trg, [.other]] ∧
+    splitToks ([Tok.semi, .semi, .other]) = [[.other]] ∧
+    splitToks ([Tok.begin_, .semi, .other, .case_, .other, .end_, .semi, .other]) =
+      [[.begin_], [.other, .case_, .other, .end_], [.other]] := by decide
+
 /-- and a statement the parser rejects is passed through unchanged (by design) -/
 theorem unparsable_unchanged (c : Cfg) (text : String) (fp : Bool) (render : Node → String) :
     processOut c text fp none render = text := by
